@@ -70,7 +70,9 @@ theorem evalImpl_comp_items {rec : Rec} {root : Node} {w : World} {rs : Bool} {f
     split at h
     · cases h
     · split at h
-      · cases h
+      · split at h
+        · split at h <;> cases h
+        · cases h
       · split at h
         · cases h
         · rename_i items st1 he
@@ -84,7 +86,9 @@ theorem evalImpl_comp_items {rec : Rec} {root : Node} {w : World} {rs : Bool} {f
     split at h
     · cases h
     · split at h
-      · cases h
+      · split at h
+        · split at h <;> cases h
+        · cases h
       · split at h
         · cases h
         · rename_i items st1 he
